@@ -281,8 +281,11 @@ func runC04(c *core.Ctx) core.Meta {
 		st1.Instances++
 		desc := false
 		ast.Inspect(fd.Body, func(n ast.Node) bool {
-			if be, ok := n.(*ast.BinaryExpr); ok && be.Op == token.GTR && strings.HasSuffix(exprString(be.X), ".Mask") && strings.HasSuffix(exprString(be.Y), ".Mask") {
+			if be, ok := n.(*ast.BinaryExpr); ok && (be.Op == token.GTR || be.Op == token.LSS) && strings.HasSuffix(exprString(be.X), ".Mask") && strings.HasSuffix(exprString(be.Y), ".Mask") {
 				xi, yi := be.X.(*ast.SelectorExpr).X, be.Y.(*ast.SelectorExpr).X
+				if be.Op == token.LSS { // list[j].Mask < list[i].Mask
+					xi, yi = yi, xi
+				}
 				if ix, ok := xi.(*ast.IndexExpr); ok {
 					if iy, ok := yi.(*ast.IndexExpr); ok && exprString(ix.Index) == "i" && exprString(iy.Index) == "j" {
 						desc = true
@@ -869,6 +872,10 @@ func runC04(c *core.Ctx) core.Meta {
 				return true
 			}
 			baseID, ok := be.X.(*ast.Ident)
+			if !ok {
+				// BASE + RegType(n - LO) may be written (or normalised) with the constant last
+				baseID, ok = be.Y.(*ast.Ident)
+			}
 			if !ok {
 				return true
 			}
